@@ -14,7 +14,8 @@ RULE_TEXT = ("One always/partly failing step under wait_fixed, wait_chain (2-4 d
              "wait_random_exponential, wait_combine with stop_after_attempt 2..6; the instant each retry body starts is "
              "compared, in virtual time, with the failure instant plus the documented delay (k-th retry -> k-th chain "
              "element / multiplier*base^(k-1) / start+increment*(k-1); documented lower bound for random strategies). "
-             "Non-trivial: >=2 retries observed; distinct = (strategy kind, number of retries, parameters).")
+             "Non-trivial: >=2 retries observed; distinct = (strategy kind, number of retries, parameters)."
+             " Chains may contain a link that is itself a sum (fixed+random, fixed+fixed); contended arm may have a sibling consumer of the event type.")
 COMPONENTS = {"real": ["workflows.* engine, retry_policy"], "stub": ["llama_index_instrumentation"], "sim": ["loop, clocks"]}
 ASSUMPTIONS = ["tenacity indexing as quoted in the property statement: first retry = first chain strategy, initial/multiplier delay"]
 EXPECTED_PROBES = ["retried-under-a-time-budget", "contended-arm", "retry-waited-for-slot", "chain-with-attempt-dependent-tail", "retry>=2", "chain", "exp", "inc", "random-family"]
